@@ -42,6 +42,14 @@ func (t *c18Tainter) val(kind string) string {
 	default:
 		s = fmt.Sprintf(`zq%04d'zqc%04d onmouseover=zqa%04d "zqb%04d <script>zqe%04d</script> &zqd%04d`, k, k, k, k, k, k)
 	}
+	// a real character reference next to the markup: text that "already looks
+	// escaped" must still be escaped
+	switch k % 5 {
+	case 1:
+		s += " &amp; &#39;"
+	case 2:
+		s += " &eacute;&lt;"
+	}
 	// some values are long: components may treat long text differently (cut
 	// it, move it into a title attribute, wrap it). The padding is plain words
 	// after the attack string, identical in the twin.
@@ -125,7 +133,9 @@ func c18Doc(seed uint64, benign bool) (string, *c18Tainter) {
 		f.Extra = append(f.Extra, &gen.Spec{Tag: "NOTE", Value: t.val("note")})
 	}
 	g.Sources = []*gen.Source{
-		{Ptr: "S1", Title: t.val("source-title"), Extra: []*gen.Spec{{Tag: "AUTH", Value: t.val("source-property")}, {Tag: "PUBL", Value: t.val("source-property")}, {Tag: "_ODD", Value: t.val("source-property"), Kids: []*gen.Spec{{Tag: "NOTE", Value: t.val("source-property")}}}, {Tag: "TEXT", Value: t.val("source-property")}}},
+		{Ptr: "S1", Title: t.val("source-title"), Extra: []*gen.Spec{{Tag: "AUTH", Value: t.val("source-property")}, {Tag: "PUBL", Value: t.val("source-property")}, {Tag: "_ODD", Value: t.val("source-property"), Kids: []*gen.Spec{{Tag: "NOTE", Value: t.val("source-property")}}}, {Tag: "TEXT", Value: t.val("source-property")},
+			{Tag: "WWW", Value: "javascript:" + t.val("source-address")}, {Tag: "FILE", Value: "data:text/html," + t.val("source-address")}, {Tag: "URL", Value: " JavaScript:" + t.val("source-address")}, {Tag: "_URL", Value: "vbscript:" + t.val("source-address")}, {Tag: "_LINK", Value: "https://example.invalid/" + t.val("source-address")},
+			{Tag: "OBJE", Kids: []*gen.Spec{{Tag: "FILE", Value: "javascript:" + t.val("source-address")}, {Tag: "FORM", Value: t.val("source-property")}}}}},
 		{Ptr: "S2", Title: t.val("source-title")},
 		{Ptr: "S3"},
 	}
@@ -162,6 +172,13 @@ func c18StructureOff(body []byte) (seq []string, injected []string, nesting stri
 				lk := strings.ToLower(a.Key)
 				if strings.HasPrefix(lk, "zq") {
 					injected = append(injected, "attribute "+a.Key+" on <"+t.Data+">")
+				}
+				// a link, form or media target whose scheme comes from the file and runs script
+				if lk == "href" || lk == "src" || lk == "action" || lk == "formaction" || lk == "data" || lk == "xlink:href" {
+					v := strings.ToLower(strings.TrimLeft(a.Val, " \t\r\n\x00"))
+					if strings.Contains(a.Val, "zq") && (strings.HasPrefix(v, "javascript:") || strings.HasPrefix(v, "vbscript:") || strings.HasPrefix(v, "data:")) {
+						injected = append(injected, "script-scheme target "+a.Key+" on <"+t.Data+">")
+					}
 				}
 				if strings.HasPrefix(lk, "on") && strings.Contains(a.Val, "zq") && strings.ContainsAny(a.Val, `"'`) && !strings.HasPrefix(strings.TrimSpace(a.Val), "location.href='") {
 					injected = append(injected, "event handler "+a.Key+" holding a tainted value with a quote")
@@ -243,7 +260,7 @@ func init() {
 		Run:   c18Run,
 		Batch: func(tier string, n int) int { return 2 },
 		Rule: "documents in which every value (given names, surnames, alternative names, GIVN/SURN/NPFX/NSFX/NICK/SPFX/name title, places, date phrases and unparsable dates, notes, event values, TYPE, source titles, source properties at two levels, citations, SEX, custom tags, individual pointers - also of individuals without a name) carries a unique taint token inside one of three attack strings (two in seven padded to about 130 and 380 bytes) with < > \" ' & ; each document is rendered twice: tainted and as a benign twin whose metacharacters are replaced by HTML-neutral punctuation ! % ( ; ? chosen order-isomorphic in ASCII. " +
-			"pages: every page of the published site in all three visibility modes, html.DiffPage of two documents (both sort modes, HideEqual on/off), q.HTMLFormatter on 12 queries, Warnings.WriteHTMLTo. monitors (HTML5 tokenizer golang.org/x/net/html): token sequence (type, tag, sorted attribute names) identical to the twin page; no element or attribute named after a taint token, no tainted <script>, no tainted event handler with a quote; well-nested with a tag stack. non-trivial = tainted page containing at least one taint token; distinct by page bytes",
+			"pages: every page of the published site in all three visibility modes, html.DiffPage of two documents (both sort modes, HideEqual on/off), q.HTMLFormatter on 12 queries, Warnings.WriteHTMLTo. monitors (HTML5 tokenizer golang.org/x/net/html): token sequence (type, tag, sorted attribute names) identical to the twin page; no element or attribute named after a taint token, no tainted <script>, no tainted event handler with a quote, no link/media target whose script scheme (javascript:, vbscript:, data:) comes from a value; well-nested with a tag stack. non-trivial = tainted page containing at least one taint token; distinct by page bytes",
 		Floors: func(a *fw.Agg, tier string) []string {
 			var f []string
 			for _, k := range []string{"pages-compared", "diff-pages", "query-pages", "warning-pages", "taint-tokens-reaching-a-page"} {
